@@ -95,6 +95,8 @@ TRANSLATING = ("file", "wrapper", "gzip", "main", "main-emptyout", "main-leftove
 # non-ASCII characters used in fields: 2-, 3- and 4-byte UTF-8, soft hyphen, zero-width space, BOM; none is whitespace
 NONASCII = "\u00e9\u00df\u03b2\u0416\u4e2d\u65e5\U0001f600\U0001d518\u00ad\u200b\ufeff"
 assert not any(ch.isspace() for ch in NONASCII)
+LINE_BOUNDARY_ASCII = "\x0b\x0c\x1c\x1d\x1e"
+LINE_BOUNDARY_WIDE = "\x85\u2028\u2029"
 
 
 def _nonascii_ok():
@@ -355,11 +357,22 @@ def _gen_wide(ctx, cases):
         call = "default" if (sc == TAB and sp == ":" and rng.random() < 0.5) else rng.choice(["kw", "kw", "pos"])
         nonascii = na_ok and k % 3 == 0
         st = _wide_struct(rng, sc, nonascii, force_multi_first=(k % 3 != 1))
+        lb = None
+        if k % 4 == 2:
+            # characters that str.splitlines() / some line readers treat as line boundaries but file iteration does not
+            # (VT, FF, FS, GS, RS; NEL, LS, PS when the locale can encode them), in the MIDDLE of a field of a random
+            # PSM line (at the end of a line strip() would remove them): a PSM line is one line, whatever it contains
+            lb = rng.choice(LINE_BOUNDARY_ASCII + (LINE_BOUNDARY_WIDE if nonascii else ""))
+            for _ in range(rng.choice([1, 1, 2, 3])):
+                row = rng.choice(st["rows"])
+                part = rng.choice([x for x in (row["pre"], row["prots"], row["post"]) if x])
+                j = rng.randrange(len(part))
+                part[j] = (part[j].strip() or "x") + lb + rng.choice([x for x in ("y", "K.AA", "9", "z z") if sc not in x])
         via = WIDE_VIAS[k % len(WIDE_VIAS)]
         crlf = rng.random() < 0.25
         cs = _mk(st, sc, sp, call, via, crlf)
         for c in cs:
-            c["tags"] = c["tags"] + ["wide"] + (["non-ascii"] if nonascii else [])
+            c["tags"] = c["tags"] + ["wide"] + (["non-ascii"] if nonascii else []) + (["line-boundary-char=%r" % lb] if lb else [])
         cases.extend(cs)
         if k % 3 == 0:
             cases.extend(_line_cases(st, sc, sp, call))
